@@ -412,6 +412,240 @@ theorem readBipBody_lists (size B : Nat) (ls : List (Nat × List Nat)) (prev lo 
     rw [ih']
     simp
 
+/-! ### reader contract -/
+
+/-- the left vertices a bipartite kthlist text lists, in order -/
+def kthLefts (rows : List KRow) : List Int :=
+  rows.filterMap (fun r => match r with | .adj (some (l, _)) => some l | _ => none)
+
+theorem bipRight_err {lo hi : Nat} {vs : List Nat} {x : Err} (e : bipRight lo hi vs = .error x) :
+    x = .valueError := by
+  induction vs generalizing hi with
+  | nil => cases e
+  | cons v vs ih =>
+    simp only [bipRight] at e
+    split at e
+    · cases e; rfl
+    · exact ih e
+
+theorem bipRight_ok {lo hi hi' : Nat} {vs : List Nat} (hlo : 1 ≤ lo) (e : bipRight lo hi vs = .ok hi') :
+    hi' ≤ hi ∧ ∀ v ∈ vs, lo ≤ v ∧ hi' + 1 ≤ v := by
+  induction vs generalizing hi with
+  | nil => cases e; simp
+  | cons v vs ih =>
+    simp only [bipRight] at e
+    split at e
+    · cases e
+    · rename_i hv
+      obtain ⟨h1, h2⟩ := ih e
+      refine ⟨by omega, ?_⟩
+      intro w hw
+      rcases List.mem_cons.1 hw with rfl | hw
+      · omega
+      · exact h2 w hw
+
+theorem readBipBody_err {size : Nat} {rows : List KRow} {prev lo hi : Nat} {d : List (Nat × List Nat)} {x : Err}
+    (e : readBipBody size prev lo hi d rows = .error x) : x = .valueError := by
+  induction rows generalizing prev lo hi d with
+  | nil => simp [readBipBody] at e
+  | cons r rs ih =>
+    cases r with
+    | comment => exact ih (by simpa [readBipBody] using e)
+    | blank => exact ih (by simpa [readBipBody] using e)
+    | spec s => simp only [readBipBody] at e; cases e; rfl
+    | adj a =>
+      simp only [readBipBody] at e
+      cases ha : kthAdj size a with
+      | error y => rw [ha] at e; cases e; exact kthAdj_err ha
+      | ok sp =>
+        obtain ⟨left, right⟩ := sp
+        rw [ha] at e
+        simp only at e
+        split at e
+        · cases e; rfl
+        · split at e
+          · cases e; rfl
+          · cases hb : bipRight (max lo (left + 1)) hi right with
+            | error y => rw [hb] at e; cases e; exact bipRight_err hb
+            | ok hi' => rw [hb] at e; exact ih e
+
+theorem listCalls_cons (p : Nat × List Nat) (ps : List (Nat × List Nat)) :
+    listCalls (p :: ps) = p.2.map (fun (v : Nat) => ((v : Int), (p.1 : Int))) ++ listCalls ps := by
+  simp [listCalls]
+
+theorem readBipBody_ok {size : Nat} {rows : List KRow} {prev lo hi lo' : Nat} {d d' : List (Nat × List Nat)}
+    (hlo : 1 ≤ lo) (hd : ∀ q ∈ d, q.1 ≤ prev)
+    (e : readBipBody size prev lo hi d rows = .ok (lo', d')) :
+    ∃ ls, d' = d ++ ls ∧ kthPairs rows = listCalls ls ∧ kthLefts rows = ls.map (fun p => (p.1 : Int)) ∧
+      lo ≤ lo' ∧ lo' ≤ max lo (hi + 1) ∧
+      (∀ p ∈ ls, prev < p.1 ∧ p.1 + 1 ≤ lo' ∧ p.1 ≤ size ∧ ∀ v ∈ p.2, lo' ≤ v ∧ v ≤ size) ∧
+      (lo' = lo ∨ ∃ p ∈ ls, lo' = p.1 + 1) := by
+  induction rows generalizing prev lo hi d with
+  | nil =>
+    simp only [readBipBody] at e; cases e
+    exact ⟨[], by simp, rfl, rfl, Nat.le_refl _, by omega, by simp, Or.inl rfl⟩
+  | cons r rs ih =>
+    cases r with
+    | comment => simpa [kthPairs_cons, kthRowPairs, kthLefts] using ih hlo hd (by simpa [readBipBody] using e)
+    | blank => simpa [kthPairs_cons, kthRowPairs, kthLefts] using ih hlo hd (by simpa [readBipBody] using e)
+    | spec s => simp [readBipBody] at e
+    | adj a =>
+      simp only [readBipBody] at e
+      cases ha : kthAdj size a with
+      | error y => rw [ha] at e; cases e
+      | ok sp =>
+        obtain ⟨left, right⟩ := sp
+        rw [ha] at e
+        simp only at e
+        split at e
+        · cases e
+        · rename_i h1
+          split at e
+          · cases e
+          · rename_i h2
+            cases hb : bipRight (max lo (left + 1)) hi right with
+            | error y => rw [hb] at e; cases e
+            | ok hi1 =>
+              rw [hb] at e
+              simp only [bipAdvance] at e
+              obtain ⟨l, r, rfl, hl, hr, _, hl1, hl2, hrr⟩ := kthAdj_ok ha
+              obtain ⟨hb1, hb2⟩ := bipRight_ok (by omega) hb
+              have hfresh : dictSet d left right = d ++ [(left, right)] :=
+                dictSet_fresh (fun q hq => by have := hd q hq; omega)
+              rw [hfresh] at e
+              obtain ⟨ls, h3, h4, h5, h6, h7, h8, h9⟩ := ih (lo := max lo (left + 1)) (by omega)
+                (fun q hq => by
+                  rcases List.mem_append.1 hq with hq | hq
+                  · have := hd q hq; omega
+                  · simp only [List.mem_singleton] at hq; subst hq; exact Nat.le_refl _) e
+              have key : kthRowPairs (.adj (some (l, r))) =
+                  right.map (fun (v : Nat) => ((v : Int), (left : Int))) := by
+                simp only [kthRowPairs, hr, hl, List.map_map]; rfl
+              have hA : lo ≤ lo' := Nat.le_trans (Nat.le_max_left _ _) h6
+              have hB : lo' ≤ max lo (hi + 1) := by
+                refine Nat.le_trans h7 ?_
+                have h2' : left ≤ hi := Nat.le_of_not_gt h2
+                simp only [Nat.max_def]
+                split <;> split <;> split <;> omega
+              refine ⟨(left, right) :: ls, by rw [h3]; simp, ?_, ?_, hA, hB, ?_, ?_⟩
+              · rw [kthPairs_cons, key, h4, listCalls_cons]
+              · simp only [kthLefts, List.filterMap_cons, List.map_cons, hl]
+                exact congrArg _ h5
+              · clear h9
+                intro p hp
+                rcases List.mem_cons.1 hp with rfl | hp
+                · refine ⟨by omega, by omega, hl2, fun v hv => ?_⟩
+                  have := hb2 v hv
+                  have := hrr v hv
+                  omega
+                · have := h8 p hp
+                  exact ⟨by omega, this.2.1, this.2.2.1, this.2.2.2⟩
+              · rcases h9 with h9 | ⟨p, hp, h9⟩
+                · by_cases hc : lo ≤ left + 1
+                  · exact Or.inr ⟨(left, right), List.mem_cons_self .., by rw [h9]; exact Nat.max_eq_right hc⟩
+                  · exact Or.inl (by omega)
+                · exact Or.inr ⟨p, List.mem_cons_of_mem _ hp, h9⟩
+
+/-- T-C14.2 for `_read_bipartite_kthlist`: the only exception is ValueError; an accepted text
+declares `l + r` vertices, lists left vertices only (all `≤ l`, and `l` itself unless `l = 0`),
+names only right vertices (`> l`) as neighbours, and the object has the edge `(a, b)` exactly
+when some line of `a` names `b + l` -/
+theorem readBipKth_contract (rows : List KRow) :
+    (∀ x, readBipKth rows = .error x → x = .valueError) ∧
+    (∀ G, readBipKth rows = .ok G → BipG.Inv G ∧ kthSize rows = some ((G.l + G.r : Nat) : Int) ∧
+      (∀ x ∈ kthLefts rows, 1 ≤ x ∧ x ≤ (G.l : Int)) ∧ (G.l = 0 ∨ (G.l : Int) ∈ kthLefts rows) ∧
+      (∀ x ∈ kthPairs rows, (G.l : Int) + 1 ≤ x.1 ∧ x.1 ≤ ((G.l + G.r : Nat) : Int)) ∧
+      ∀ a b, (a, b) ∈ G.edgeset ↔ (((b + G.l : Nat) : Int), (a : Int)) ∈ kthPairs rows) := by
+  unfold readBipKth
+  cases hh : kthHeader rows with
+  | error y => exact ⟨fun x e => by cases e; exact kthHeader_err hh, fun G e => by cases e⟩
+  | ok sr =>
+    obtain ⟨size, rest⟩ := sr
+    simp only
+    obtain ⟨hsize, hpairs⟩ := kthHeader_ok hh
+    cases hb : readBipBody size 0 1 size [] rest with
+    | error y => exact ⟨fun x e => by cases e; exact readBipBody_err hb, fun G e => by cases e⟩
+    | ok ld =>
+      obtain ⟨lo', d⟩ := ld
+      simp only
+      obtain ⟨ls, h3, h4, h5, h6, h7, h8, h9⟩ := readBipBody_ok (Nat.le_refl 1) (by simp) hb
+      rw [List.nil_append] at h3
+      subst h3
+      have hneg : ¬ ((lo' : Int) - 1 < 0 ∨ (size : Int) - (lo' : Int) + 1 < 0) := by omega
+      have eL : ((lo' : Int) - 1).toNat = lo' - 1 := by omega
+      have eR : ((size : Int) - (lo' : Int) + 1).toNat = size - (lo' - 1) := by omega
+      simp only [hneg, if_false, eL, eR, addBipLists_eq]
+      cases ha : (BipG.init (lo' - 1) (size - (lo' - 1))).addEdgesFrom (bipCalls (lo' - 1) d) with
+      | error y => exact ⟨fun x e => by cases e; exact BipG.addEdgesFrom_err ha, fun G e => by cases e⟩
+      | ok G₁ =>
+        simp only
+        obtain ⟨hv, hi, hl, hr, hm⟩ := BipG.addEdgesFrom_ok (BipG.inv_init _ _) ha
+        have hl' : G₁.l = lo' - 1 := hl
+        have hr' : G₁.r = size - (lo' - 1) := hr
+        constructor
+        · intro x e
+          split at e
+          · cases e; rfl
+          · cases e
+        · intro G e
+          split at e
+          · cases e
+          · cases e
+            have hleftsrows : kthLefts rows = kthLefts rest := by
+              clear hb hsize hpairs
+              induction rows with
+              | nil => cases hh
+              | cons r rs ih =>
+                cases r with
+                | comment => simpa [kthLefts] using ih (by simpa [kthHeader] using hh)
+                | blank => simpa [kthLefts] using ih (by simpa [kthHeader] using hh)
+                | spec s =>
+                  cases s with
+                  | none => cases hh
+                  | some s =>
+                    simp only [kthHeader] at hh
+                    split at hh
+                    · cases hh
+                    · cases hh; simp [kthLefts]
+                | adj a => cases hh
+            refine ⟨hi, by rw [hsize, hl', hr']; congr 1; omega, ?_, ?_, ?_, ?_⟩
+            · intro x hx
+              rw [hleftsrows, h5] at hx
+              obtain ⟨p, hp, rfl⟩ := List.mem_map.1 hx
+              have := h8 p hp
+              rw [hl']; omega
+            · rcases h9 with h9 | ⟨p, hp, h9⟩
+              · left; rw [hl', h9]
+              · right
+                rw [hleftsrows, h5, hl']
+                exact List.mem_map.2 ⟨p, hp, by omega⟩
+            · intro x hx
+              rw [hpairs, h4] at hx
+              obtain ⟨p, hp, v, hv, rfl⟩ := mem_listCalls.1 hx
+              have := (h8 p hp).2.2.2 v hv
+              rw [hl', hr']
+              simp only
+              omega
+            · intro a b
+              rw [hm, hpairs, h4]
+              simp only [BipG.init, List.not_mem_nil, false_or, hl']
+              constructor
+              · rintro ⟨x, hx, hc⟩
+                obtain ⟨p, hp, v, hv, rfl⟩ := mem_bipCalls.1 hx
+                have := (h8 p hp).2.2.2 v hv
+                simp only [Prod.mk.injEq, Int.toNat_natCast] at hc
+                obtain ⟨rfl, rfl⟩ := hc
+                refine mem_listCalls.2 ⟨p, hp, v, hv, ?_⟩
+                simp only [Prod.mk.injEq, and_true]
+                omega
+              · intro hx
+                obtain ⟨p, hp, v, hv, hc⟩ := mem_listCalls.1 hx
+                have := (h8 p hp).2.2.2 v hv
+                simp only [Prod.mk.injEq] at hc
+                refine ⟨((p.1 : Int), (v : Int) - ((lo' - 1 : Nat) : Int)), mem_bipCalls.2 ⟨p, hp, v, hv, rfl⟩, ?_⟩
+                simp only [Int.toNat_natCast, Prod.mk.injEq]
+                omega
+
 theorem foldl_lo_range (l : Nat) (f : Nat → List Nat) :
     ((List.range l).map (fun i => (i + 1, f i))).foldl (fun lo p => max lo (p.1 + 1)) 1 = l + 1 := by
   induction l with
